@@ -192,7 +192,7 @@ pub async fn run(out: &mut Out) {
         }
     });
     // ---- wiring: what a live tunnel / session runs with
-    let wirings: Vec<(Option<u64>, Option<u64>)> = vec![(None, None), (Some(2), Some(5)), (Some(0), Some(7)), (Some(3), None), (None, Some(4)), (Some(86400), Some(1))];
+    let wirings: Vec<(Option<u64>, Option<u64>)> = vec![(None, None), (Some(2), Some(5)), (Some(0), Some(7)), (Some(3), None), (None, Some(4)), (Some(86400), Some(1)), (Some(5), Some(0)), (Some(0), Some(0)), (Some(6), Some(6))];
     let mut procs = vec![];
     for (i, (idle, udp)) in wirings.iter().enumerate() {
         procs.push((idle, udp, start(&bin, *idle, *udp, i % 2 == 0, uoport, &format!("w{}", i)).await));
